@@ -333,8 +333,10 @@ int (*div_array[])(void *, number, int) = { idiv, ddiv, zdiv };
 static int mtx_irem(void *dest, number a, int n) {
   if (a.i==0) PY_ERR_INT(PyExc_ZeroDivisionError, "division by zero");
   int i;
-  for (i=0; i<n; i++)
-    ((int_t *)dest)[i] %= a.i;
+  for (i=0; i<n; i++) {
+    int_t r = ((int_t *)dest)[i] % a.i;
+    ((int_t *)dest)[i] = (r != 0 && ((r < 0) != (a.i < 0))) ? r + a.i : r;
+  }
 
   return 0;
 }
